@@ -57,6 +57,15 @@ def find (vs : List Nat) (version : Nat) : Option Nat :=
   | none => none
   | some last => if last < version then none else findLoop vs version vs.length 0 vs.length
 
+/-- `VersionRange.Add`: appends only a version greater than the last one (`none` = the error return) -/
+def rangeAdd (vs : List Nat) (v : Nat) : Option (List Nat) :=
+  match vs.getLast? with
+  | none => some [v]
+  | some last => if v ≤ last then none else some (vs ++ [v])
+
+/-- a range built by `Add` calls, failed ones leaving it unchanged -/
+def rangeOf (adds : List Nat) : List Nat := adds.foldl (fun vs v => (rangeAdd vs v).getD vs) []
+
 /-! ### the change log -/
 
 inductive Ev (K V : Type) where
